@@ -1,5 +1,6 @@
 // Transport / checkpoint seam (F10): everything that crosses it goes through Serializer<MemPacker>.
 #pragma once
+#include <memory>
 #include "driver.hpp"
 #include <string>
 #include <vector>
@@ -7,6 +8,8 @@
 namespace srun {
 
 std::vector<char> pack_state(const Opm::Schedule& s, std::size_t k);
+// an independent deep copy of snapshot k (pack, unpack into a fresh ScheduleState): shares no object with the schedule
+std::shared_ptr<Opm::ScheduleState> deep_copy_state(const Opm::Schedule& s, std::size_t k);
 std::vector<char> pack_schedule(const Opm::Schedule& s);
 
 // member-wise equality of two schedule states (the members ScheduleState::operator== compares); returns the first differing member or ""
